@@ -232,6 +232,28 @@ impl ListT {
     { unimplemented!() }
     #[verifier::external_body]
     pub fn push_back(&mut self, r: QRec) ensures final(self)@ == old(self)@.push(r) { }
+    /// intrusive unlink of the record the pointer names (unsafe fn: the caller guarantees it is linked in THIS list)
+    #[verifier::external_body]
+    pub fn remove_from_ptr(&mut self, p: PtrT) -> (r: QRec)
+        requires exists|i: int| 0 <= i < old(self)@.len() && old(self)@[i] == p.rec@,
+        ensures r == p.rec@, exists|i: int| 0 <= i < old(self)@.len() && old(self)@[i] == p.rec@ && final(self)@ == #[trigger] old(self)@.remove(i),
+    { unimplemented!() }
+}
+/// `Arc::as_ptr(record)`: the pointer names the record
+pub struct PtrT { pub rec: Ghost<QRec> }
+pub fn verif_ptr(record: &QRec) -> (p: PtrT) ensures p.rec@ == *record { PtrT { rec: Ghost(*record) } }
+pub proof fn lemma_qsum_remove(s: Seq<QRec>, i: int)
+    requires 0 <= i < s.len(),
+    ensures qsum(s.remove(i)) + s[i].w as nat == qsum(s),
+    decreases s.len(),
+{
+    if i == s.len() - 1 { assert(s.remove(i) =~= s.drop_last()); }
+    else {
+        lemma_qsum_remove(s.drop_last(), i);
+        assert(s.remove(i).drop_last() =~= s.drop_last().remove(i));
+        assert(s.remove(i).last() == s.last());
+        assert(s.drop_last()[i] == s[i]);
+    }
 }
 pub open spec fn ids(s: Seq<QRec>) -> Seq<int> { s.map_values(|r: QRec| r.id@) }
 pub open spec fn qsum(s: Seq<QRec>) -> nat decreases s.len() { if s.len() == 0 { 0 } else { qsum(s.drop_last()) + s.last().w as nat } }
@@ -412,6 +434,30 @@ impl QueuesT {
             proof { lemma_qsum_push(m0, self.main_queue@.last()); assert(self.main_queue@.drop_last() =~= m0); }
 //@after /self\.small_queue\.push_back\(record\);/
             proof { lemma_qsum_push(s0, self.small_queue@.last()); assert(self.small_queue@.drop_last() =~= s0); }
+//@end
+// ---- S3Fifo::remove: the record leaves the queue its tag names, that queue's weight follows, tag and frequency are reset
+//@region foyer-memory/src/eviction/s3fifo.rs :: impl~^impl<K, V, P> Eviction for S3Fifo<K, V, P>/fn remove name=s3fifo_remove whole=1 sub=@let state = unsafe \{ &mut \*record\.state\(\)\.get\(\) \};@@ sub=@\bstate\.@record.st.@ sub=@unsafe \{ self\.(\w+)\.remove_from_ptr\(Arc::as_ptr\(record\)\) \};@self.\1.remove_from_ptr(verif_ptr(record));@
+//@head
+    fn s3fifo_remove(&mut self, record: &mut QRec)
+        requires old(self).wfq(), old(record).st.queue != Queue::None,
+            old(record).st.queue == Queue::Main ==> exists|i: int| 0 <= i < old(self).main_queue@.len() && old(self).main_queue@[i] == *old(record),
+            old(record).st.queue == Queue::Small ==> exists|i: int| 0 <= i < old(self).small_queue@.len() && old(self).small_queue@[i] == *old(record),
+        ensures
+            final(self).wfq(), // @label queue_weights_stay_exact
+            final(self).ghost_queue == old(self).ghost_queue, final(self).small_to_main_freq_threshold == old(self).small_to_main_freq_threshold,
+            final(record).st.queue == Queue::None && final(record).st.freq == 0, // @label a_removed_record_forgets_its_queue_and_its_frequency
+            final(record).id == old(record).id && final(record).w == old(record).w && final(record).h == old(record).h,
+            old(record).st.queue == Queue::Main ==> final(self).small_queue@ == old(self).small_queue@
+                && exists|i: int| 0 <= i < old(self).main_queue@.len() && old(self).main_queue@[i] == *old(record) && final(self).main_queue@ == #[trigger] old(self).main_queue@.remove(i), // @label the_record_leaves_the_queue_its_tag_names
+            old(record).st.queue == Queue::Small ==> final(self).main_queue@ == old(self).main_queue@
+                && exists|i: int| 0 <= i < old(self).small_queue@.len() && old(self).small_queue@[i] == *old(record) && final(self).small_queue@ == #[trigger] old(self).small_queue@.remove(i), // @label the_record_leaves_the_queue_its_tag_names
+//@prologue
+        let ghost s0 = self.small_queue@;
+        let ghost m0 = self.main_queue@;
+//@after /self\.main_queue\.remove_from_ptr\(verif_ptr\(record\)\);/
+                proof { let i = choose|i: int| 0 <= i < m0.len() && m0[i] == *old(record) && self.main_queue@ == #[trigger] m0.remove(i); lemma_qsum_remove(m0, i); }
+//@after /self\.small_queue\.remove_from_ptr\(verif_ptr\(record\)\);/
+                proof { let i = choose|i: int| 0 <= i < s0.len() && s0[i] == *old(record) && self.small_queue@ == #[trigger] s0.remove(i); lemma_qsum_remove(s0, i); }
 //@end
 }
 pub open spec fn old_main_of(m: Seq<QRec>) -> Seq<QRec> { m.drop_last() }
